@@ -11,6 +11,7 @@ import (
 	"testing"
 	"time"
 
+	"github.com/mutagen-io/mutagen/pkg/filesystem"
 	"github.com/mutagen-io/mutagen/pkg/selection"
 	"github.com/mutagen-io/mutagen/pkg/synchronization"
 	"github.com/mutagen-io/mutagen/pkg/synchronization/core"
@@ -145,8 +146,8 @@ func genModel(p *simkit.Plan, r *simkit.Rand, tier string) {
 			p.Ops = append(p.Ops, simkit.Op{Actor: "user", Kind: "sleep", N: []int64{int64(simkit.Pick(r, []int{1, 50, 2000}))}})
 		case 2:
 			if lifecycle {
-				kinds := []string{"flush", "flush", "pause", "resume", "reset", "list", "restart", "sleep", "terminate"}
-				weights := []int{20, 10, 12, 14, 6, 8, 8, 8, 1}
+				kinds := []string{"flush", "flush", "pause", "resume", "reset", "list", "restart", "sleep", "terminate", "crash"}
+				weights := []int{20, 10, 12, 14, 6, 8, 8, 8, 1, 6}
 				k := kinds[r.Weighted(weights)]
 				op := simkit.Op{Actor: "client", Kind: k}
 				switch k {
@@ -170,6 +171,25 @@ func genModel(p *simkit.Plan, r *simkit.Rand, tier string) {
 			} else {
 				p.Ops = append(p.Ops, simkit.Op{Actor: "client", Kind: "flush", N: []int64{int64(r.Intn(2))}})
 			}
+		}
+	}
+	if !lifecycle && p.Scenario != "model-halt" && p.Scenario != "disk-halt" && p.Scenario != "model-outcomes-enum" && (r.Chance(1, 6) || strings.HasSuffix(p.Scenario, "-crash")) {
+		// The daemon crashes at an arbitrary point of the history (whatever it is
+		// doing then: scanning, staging, in the middle of a transition, saving)
+		// and starts again from what is on disk.
+		for k := r.Range(1, 3); k > 0; k-- {
+			at := r.Intn(len(p.Ops) + 1)
+			for at < len(p.Ops) && p.Ops[at].Actor == "init" {
+				at++
+			}
+			rest := append([]simkit.Op(nil), p.Ops[at:]...)
+			// (a flush first, more often than not: the crash then tends to land
+			// inside a cycle instead of an idle daemon)
+			ins := []simkit.Op{{Actor: "client", Kind: "crash"}}
+			if r.Chance(2, 3) {
+				ins = []simkit.Op{{Actor: "client", Kind: "flush", N: []int64{0}}, {Actor: "client", Kind: "crash"}}
+			}
+			p.Ops = append(append(p.Ops[:at:at], ins...), rest...)
 		}
 	}
 	if p.Scenario == "disk-remote" {
@@ -506,7 +526,11 @@ func cleanDataDir(dir string) {
 	os.MkdirAll(dir, 0o700)
 }
 
-// execSession runs one session-level scenario (model or disk endpoints).
+// execSession runs one session-level scenario (model or disk endpoints). A run
+// is one or more incarnations of the simulated daemon: the client operation
+// "crash" freezes the whole incarnation where it stands (simkit.Crash) and the
+// next one starts, in a fresh bubble, from what is on disk - roots, data
+// directory - and nothing else.
 func execSession(t *testing.T, plan *simkit.Plan) *simkit.Result {
 	dataDir := filepath.Join(os.Getenv("MUTAGEN_DATA_DIRECTORY"))
 	if dataDir == "" {
@@ -517,49 +541,82 @@ func execSession(t *testing.T, plan *simkit.Plan) *simkit.Result {
 	cleanDataDir(dataDir)
 	var nontrivial bool
 	var fp string
-	res := simkit.Run(t, plan, simkit.Options{MaxSteps: 20000, Horizon: 20 * time.Minute, RealTimeout: 90 * time.Second}, func(s *simkit.Sim) {
-		h := &harness{
-			s: s, plan: plan, mode: modes[plan.C("mode")%4], dataDir: dataDir,
-			trees:   map[string]*core.Entry{"alpha": dirEntry(), "beta": dirEntry()},
-			version: map[string]int{}, scanned: map[string]int{"alpha": -1, "beta": -1},
-			pollWake: map[string]chan struct{}{"alpha": make(chan struct{}, 1), "beta": make(chan struct{}, 1)},
-			preserve: map[string]bool{"alpha": true, "beta": true}, userSeq: map[string]int64{},
-			inflightEP: map[string]int{}, transInFlight: map[string]int{}, scanCount: map[string]int{}, scanStarts: map[string][]int64{},
-			lastScan: map[string]*scanRecord{}, outcomeNo: map[string]int{}, transCallNo: map[string]int{},
-			ideal: true, pending: map[string][]pendingResult{}, modelSide: map[string]bool{},
+	var h *harness
+	// Index of the next operation of each actor; survives a crash (an operation
+	// is consumed when it is granted, i.e. when it takes effect).
+	opIndex := map[string]int{}
+	created := false
+	defer func() {
+		if h != nil && h.disk != nil {
+			h.teardownDisk()
 		}
-		if plan.C("model_alpha") == 1 {
-			h.modelSide["alpha"] = true
-		}
-		current = h
-		defer func() { current = nil }()
-		switch plan.C("nonpreserving") {
-		case 1:
-			h.preserve["alpha"] = false
-		case 2:
-			h.preserve["beta"] = false
-		}
-		if strings.HasPrefix(plan.Scenario, "disk") || strings.HasPrefix(plan.Scenario, "links") {
-			if err := h.setupDisk(); err != nil {
-				panic(err)
+		filesystem.VerifAtomicStepHook = nil
+		current = nil
+	}()
+	res := simkit.RunPhases(t, plan, simkit.Options{MaxSteps: 20000, Horizon: 20 * time.Minute, RealTimeout: 90 * time.Second}, func(s *simkit.Sim, phase int) bool {
+		if phase == 0 {
+			h = &harness{
+				s: s, plan: plan, mode: modes[plan.C("mode")%4], dataDir: dataDir,
+				trees:   map[string]*core.Entry{"alpha": dirEntry(), "beta": dirEntry()},
+				version: map[string]int{}, scanned: map[string]int{"alpha": -1, "beta": -1},
+				preserve: map[string]bool{"alpha": true, "beta": true}, userSeq: map[string]int64{},
+				inflightEP: map[string]int{}, transInFlight: map[string]int{}, scanCount: map[string]int{}, scanStarts: map[string][]int64{},
+				lastScan: map[string]*scanRecord{}, outcomeNo: map[string]int{}, transCallNo: map[string]int{},
+				ideal: true, pending: map[string][]pendingResult{}, modelSide: map[string]bool{},
 			}
-			defer h.teardownDisk()
-		}
-		// Initial content.
-		for _, op := range plan.Ops {
-			if op.Actor == "init" {
-				h.applyUserOp(op)
+			if plan.C("model_alpha") == 1 {
+				h.modelSide["alpha"] = true
 			}
+			current = h
+			switch plan.C("nonpreserving") {
+			case 1:
+				h.preserve["alpha"] = false
+			case 2:
+				h.preserve["beta"] = false
+			}
+			if strings.HasPrefix(plan.Scenario, "disk") || strings.HasPrefix(plan.Scenario, "links") {
+				if err := h.setupDisk(); err != nil {
+					panic(err)
+				}
+			}
+			// Nothing of a crashed incarnation reaches the data directory any
+			// more: its saves stop at their next step.
+			filesystem.VerifAtomicStepHook = func(step, target string, temporary *os.File) {
+				if s.Crashed() {
+					s.ParkForever()
+				}
+			}
+			// Initial content.
+			for _, op := range plan.Ops {
+				if op.Actor == "init" {
+					h.applyUserOp(op)
+				}
+			}
+			if plan.C("mirror_init") == 1 {
+				h.mirrorInit()
+			}
+		} else {
+			h.afterCrash()
 		}
-		if plan.C("mirror_init") == 1 {
-			h.mirrorInit()
-		}
+		// Channels belong to the bubble they were made in.
+		h.mu.Lock()
+		h.pollWake = map[string]chan struct{}{"alpha": make(chan struct{}, 1), "beta": make(chan struct{}, 1)}
+		h.mu.Unlock()
 		h.logger = h.newLogger()
 		mgr, err := synchronization.NewManager(h.logger)
 		if err != nil {
+			if phase > 0 {
+				s.Violate("C27", "unloadable-after-crash", "NewManager", "after a crash the daemon cannot start from what is on disk: %v", err)
+				return false
+			}
 			panic(err)
 		}
+		h.mu.Lock()
 		h.mgr = mgr
+		h.mu.Unlock()
+		if phase > 0 {
+			h.checkAfterCrash(mgr)
+		}
 		configuration := &synchronization.Configuration{SynchronizationMode: h.mode}
 		h.configure(configuration)
 		alphaURL := &urlpkg.URL{Kind: urlpkg.Kind_Synchronization, Protocol: urlpkg.Protocol_Local, Path: h.rootPath("alpha")}
@@ -567,6 +624,7 @@ func execSession(t *testing.T, plan *simkit.Plan) *simkit.Result {
 
 		var mu sync.Mutex
 		running := 0
+		crashNow := false
 		start := func(name string, fn func()) {
 			mu.Lock()
 			running++
@@ -576,7 +634,7 @@ func execSession(t *testing.T, plan *simkit.Plan) *simkit.Result {
 				fn()
 			})
 		}
-		allDone := func() bool { mu.Lock(); defer mu.Unlock(); return running == 0 }
+		allDone := func() bool { mu.Lock(); defer mu.Unlock(); return running == 0 || crashNow }
 		s.Eligible = func(g *simkit.Gate) bool {
 			if !strings.HasPrefix(g.Label, "client") && g.Label != "settle" {
 				return true
@@ -592,38 +650,78 @@ func execSession(t *testing.T, plan *simkit.Plan) *simkit.Result {
 			return true
 		}
 		s.Invariant = h.invariant
+		opsOf := func(actor string) []simkit.Op {
+			var ops []simkit.Op
+			for _, op := range plan.Ops {
+				if op.Actor == actor {
+					ops = append(ops, op)
+				}
+			}
+			return ops
+		}
+		// next hands out the actor's next operation once it has been granted.
+		next := func(actor string, ops []simkit.Op) (simkit.Op, bool) {
+			mu.Lock()
+			i := opIndex[actor]
+			mu.Unlock()
+			if i >= len(ops) || s.PassThrough() {
+				return simkit.Op{}, false
+			}
+			op := ops[i]
+			if op.Kind == "sleep" && actor != "client" && actor != "client2" {
+				mu.Lock()
+				opIndex[actor] = i + 1
+				mu.Unlock()
+				return op, true
+			}
+			s.Gate(actor, op.Kind)
+			mu.Lock()
+			opIndex[actor] = i + 1
+			mu.Unlock()
+			return op, true
+		}
 
 		// Session creation happens under the scheduler too (it connects).
-		created := false
 		start("client", func() {
-			s.Gate("client", "create")
-			id, err := mgr.Create(context.Background(), alphaURL, betaURL, configuration, &synchronization.Configuration{}, &synchronization.Configuration{}, "sim", nil, false, "")
-			if err != nil {
-				s.Logf("client", "create failed: %v", err)
-				return
-			}
-			h.mu.Lock()
-			h.sessionID = id
-			h.sel = &selection.Selection{Specifications: []string{id}}
-			created = true
-			h.mu.Unlock()
-			s.Logf("client", "created session")
-			for _, op := range plan.Ops {
-				if op.Actor != "client" {
-					continue
-				}
-				if s.PassThrough() {
+			if !created {
+				s.Gate("client", "create")
+				id, err := mgr.Create(context.Background(), alphaURL, betaURL, configuration, &synchronization.Configuration{}, &synchronization.Configuration{}, "sim", nil, false, "")
+				if err != nil {
+					s.Logf("client", "create failed: %v", err)
 					return
 				}
-				s.Gate("client", op.Kind)
+				h.mu.Lock()
+				h.sessionID = id
+				h.sel = &selection.Selection{Specifications: []string{id}}
+				h.mu.Unlock()
+				mu.Lock()
+				created = true
+				mu.Unlock()
+				s.Logf("client", "created session")
+			}
+			ops := opsOf("client")
+			for {
+				op, ok := next("client", ops)
+				if !ok {
+					return
+				}
+				if op.Kind == "crash" {
+					// The daemon dies here, whatever it was doing.
+					s.Logf("client", "the daemon crashes")
+					mu.Lock()
+					crashNow = true
+					mu.Unlock()
+					s.Crash()
+					return
+				}
 				h.clientOp("client", op)
 			}
 		})
 		waitCreated := func() bool {
 			for i := 0; i < 100000; i++ {
-				h.mu.Lock()
+				mu.Lock()
 				ok := created
-				h.mu.Unlock()
+				mu.Unlock()
 				if ok || s.PassThrough() {
 					return ok
 				}
@@ -633,12 +731,7 @@ func execSession(t *testing.T, plan *simkit.Plan) *simkit.Result {
 		}
 		for _, actor := range []string{"user", "client2"} {
 			actor := actor
-			var ops []simkit.Op
-			for _, op := range plan.Ops {
-				if op.Actor == actor {
-					ops = append(ops, op)
-				}
-			}
+			ops := opsOf(actor)
 			if len(ops) == 0 {
 				continue
 			}
@@ -646,15 +739,15 @@ func execSession(t *testing.T, plan *simkit.Plan) *simkit.Result {
 				if actor == "client2" && !waitCreated() {
 					return
 				}
-				for _, op := range ops {
-					if s.PassThrough() {
+				for {
+					op, ok := next(actor, ops)
+					if !ok {
 						return
 					}
-					if op.Kind == "sleep" {
+					if op.Kind == "sleep" && actor == "user" {
 						time.Sleep(time.Duration(op.Int(0))*time.Millisecond + 53*time.Microsecond)
 						continue
 					}
-					s.Gate(actor, op.Kind)
 					if actor == "user" {
 						h.applyUserOp(op)
 					} else {
@@ -664,13 +757,21 @@ func execSession(t *testing.T, plan *simkit.Plan) *simkit.Result {
 			})
 		}
 		stop := s.Loop(allDone)
+		mu.Lock()
+		crashed := crashNow
+		mu.Unlock()
+		if crashed {
+			s.Logf("sim", "incarnation %d ended by a crash at step %d", phase, s.Step())
+			h.noteCrash()
+			return true
+		}
 		s.Logf("sim", "main phase ended: %v at step %d", stop, s.Step())
 		if stop != simkit.StopCond {
 			h.reportHang("main phase", stop)
 		}
-		h.mu.Lock()
+		mu.Lock()
 		ok := created
-		h.mu.Unlock()
+		mu.Unlock()
 		if ok && stop == simkit.StopCond {
 			// Settling phase: faults off, user idle.
 			s.SetBudget(20000, 15*time.Minute)
@@ -691,10 +792,95 @@ func execSession(t *testing.T, plan *simkit.Plan) *simkit.Result {
 		h.mu.Unlock()
 		m.Shutdown()
 		s.WaitActors(2 * time.Minute)
+		return false
 	})
 	res.NonTrivial = nontrivial
 	res.Fingerprint = simkit.Digest(res.JournalHash, fp)
 	return res
+}
+
+// noteCrash records, at the instant of a crash, what the next incarnation may
+// and may not assume.
+func (h *harness) noteCrash() {
+	h.mu.Lock()
+	defer h.mu.Unlock()
+	for _, c := range h.cmds {
+		if c.ret == 0 {
+			c.ret = -1 // never returns: its daemon is gone
+		}
+	}
+	h.lifecycleBusy, h.mgrBusy = false, false
+}
+
+// afterCrash resets everything the harness knew about the crashed incarnation's
+// volatile state. What it knows about durable state stays: the roots (model
+// trees or disk), the user's edit history, whether Pause or Terminate had
+// returned before the crash.
+func (h *harness) afterCrash() {
+	h.mu.Lock()
+	defer h.mu.Unlock()
+	h.inflightEP = map[string]int{}
+	h.transInFlight = map[string]int{}
+	n := max(h.scanCount["alpha"], h.scanCount["beta"]) + 1
+	h.scanCount = map[string]int{"alpha": n, "beta": n}
+	h.evaluated = n
+	h.lastScan = map[string]*scanRecord{}
+	h.expectedPlan = nil
+	h.expectedPost = nil
+	h.pending = map[string][]pendingResult{}
+	h.cycleClean, h.cycleFresh, h.cycleN = false, false, 0
+	h.resetSeq = 0
+	h.quiet, h.atRest, h.restError = false, false, ""
+	// A transition that was being applied when the daemon died is a fault as far
+	// as "every change was applied exactly" is concerned.
+	h.ideal = false
+	if d := h.disk; d != nil {
+		d.mu.Lock()
+		d.lastSnap = map[string]*core.Entry{}
+		d.scanStart = map[string]int64{}
+		d.transStart = map[string]int64{}
+		d.midcycle = nil
+		d.mu.Unlock()
+		d.freshAt = map[string]int64{}
+		d.transEnd = map[string]int64{}
+	}
+}
+
+// checkAfterCrash is what C27 (3), C05 (4) and C29 promise about a daemon that
+// starts again after a crash at an arbitrary point.
+func (h *harness) checkAfterCrash(mgr *synchronization.Manager) {
+	s := h.s
+	h.mu.Lock()
+	wasPaused, wasTerm, id := h.pausedSince > 0, h.terminatedSince > 0, h.sessionID
+	h.mu.Unlock()
+	s.Count("probe.restarts_after_crash", 1)
+	if id == "" {
+		return
+	}
+	_, states, err := mgr.List(context.Background(), &selection.Selection{All: true}, 0)
+	if err != nil {
+		s.Violate("C27", "unloadable-after-crash", "List", "listing sessions after a crash failed: %v", err)
+		return
+	}
+	if wasTerm && len(states) != 0 {
+		s.Violate("C29", "terminated-session-reloaded", "crash", "a session whose termination had returned is listed again after a crash")
+	}
+	if !wasTerm && len(states) != 1 {
+		s.Violate("C27", "session-lost-in-crash", "NewManager", "the session was not loaded after a crash (%d sessions listed): its files are missing or unreadable", len(states))
+	}
+	if len(states) == 1 && wasPaused && !states[0].Session.Paused {
+		s.Violate("C29", "paused-state-lost", "crash", "Pause had returned before the crash and the session is not paused after it")
+	}
+	// The archive is whole: it loads and holds only synchronizable content.
+	if anc, aerr := h.loadArchive(); aerr != nil {
+		if !wasTerm {
+			s.Violate("C27", "archive-torn-by-crash", "archive", "after a crash the archive cannot be loaded: %v", aerr)
+		}
+	} else if anc != nil {
+		if err := anc.EnsureValid(true); err != nil {
+			s.Violate("C05", "archive-invalid-after-crash", "archive", "after a crash the archive is invalid: %v", err)
+		}
+	}
 }
 
 // reportHang is called when a phase ends by budget or horizon: commands and
